@@ -24,12 +24,12 @@ import (
 type childReq struct {
 	Op        string     `json:"op"`
 	Steps     []childReq `json:"steps,omitempty"`
-	Dir       string   `json:"dir"`
-	Doc       string   `json:"doc_b64,omitempty"`
-	NilDoc    bool     `json:"nil_doc,omitempty"`
-	NilMeta   bool     `json:"nil_meta,omitempty"`
-	NoClobber bool     `json:"noclobber,omitempty"`
-	IDs       []string `json:"ids_b64,omitempty"`
+	Dir       string     `json:"dir"`
+	Doc       string     `json:"doc_b64,omitempty"`
+	NilDoc    bool       `json:"nil_doc,omitempty"`
+	NilMeta   bool       `json:"nil_meta,omitempty"`
+	NoClobber bool       `json:"noclobber,omitempty"`
+	IDs       []string   `json:"ids_b64,omitempty"`
 }
 
 type childRes struct {
